@@ -240,7 +240,7 @@ def run_hermitian(inp):
         vec = u[:, rng.randrange(n)] * (2.5 + 0j)
     else:
         vec = np.zeros(n, dtype=complex)
-    vec = vec * rng.choice([1.0, 1e-3, 37.0])
+    vec = vec * rng.choice([1.0, 1e-3, 37.0, 1e-10, 1e-13])   # the convergence test is relative to the norm of the start vector
     m_max = rng.choice([1, 2, 3, 5, 8, 12, 25, 25, 25, 40])
     tol = rng.choice([1e-12, 1e-12, 1e-10, 1e-6, 1e-3])
     case, out, rec = lanczos_case(lambda x: a @ x, vec, dt, m_max, tol, "lanczos-" + start)
